@@ -208,6 +208,24 @@ def size(dims):
     return int(np.prod(eff(dims), dtype=int)) if eff(dims) else 1
 
 
+# the ways of calling one and the same operation (all must give the same Tensor); the token
+# form sent to the model does not depend on the convention
+THEN_CONVS = [">>", ">>", "<<", "method", "unbound"]
+TENSOR_CONVS = ["@", "@", "method", "unbound"]
+ADD_CONVS = ["+", "+", "sum", "0+"]
+DAGGER_CONVS = ["method", "slice"]
+TRANSPOSE_CONVS = ["()", "left=True", "left=False", "pos"]
+NARY_CONVS = ["method", "unbound"]
+MAP_FNS = {
+    "double": lambda x: x + x,
+    "square": lambda x: x * x,
+    "conj": lambda x: x.conjugate(),
+    "neg": lambda x: -x,
+    "one": lambda x: 1,
+    "zero": lambda x: 0,
+}
+
+
 class TooBig(Exception):
     """A literal beyond `TGen.maxlit` entries was requested (only when maxlit is set)."""
 
@@ -241,7 +259,8 @@ class TGen:
             return self.lit()
         if k < 0.65:
             d = self.dims()
-            return ("id", d), eff(d), eff(d), 1.0
+            conv = "default" if not eff(d) and r.random() < 0.5 else "dim"
+            return ("id", d, conv), eff(d), eff(d), 1.0
         if k < 0.78:
             l, rr = self.dims(), self.dims()
             return ("swap", l, rr), eff(l) + eff(rr), eff(rr) + eff(l), 1.0
@@ -269,7 +288,7 @@ class TGen:
             mid = self.dims()
             a, ad, ac, ab = self.expr(depth - 1, dom, mid)
             b, bd, bc, bb = self.expr(depth - 1, mid, cod)
-            return ("then", a, b), ad, bc, ab * bb * size(mid)
+            return ("then", a, b, r.choice(THEN_CONVS)), ad, bc, ab * bb * size(mid)
         op = r.choice(["then", "then", "tensor", "tensor", "dagger", "transpose", "conj", "add"])
         if op == "then":
             a, ad, ac, ab = self.expr(depth - 1)
@@ -277,23 +296,24 @@ class TGen:
                 b, bd, bc, bb = self.expr(depth - 1)
             else:
                 b, bd, bc, bb = self.expr(depth - 1, dom=ac, cod=None)
-            return ("then", a, b), ad, bc, ab * bb * size(ac)
+            return ("then", a, b, r.choice(THEN_CONVS)), ad, bc, ab * bb * size(ac)
         if op == "tensor":
             a, ad, ac, ab = self.expr(depth - 1)
             b, bd, bc, bb = self.expr(depth - 1)
-            return ("tensor", a, b), ad + bd, ac + bc, ab * bb
+            return ("tensor", a, b, r.choice(TENSOR_CONVS)), ad + bd, ac + bc, ab * bb
         if op == "add":
             a, ad, ac, ab = self.expr(depth - 1)
             if r.random() < self.malformed:
                 b, bd, bc, bb = self.expr(depth - 1)
             else:
                 b, bd, bc, bb = self.lit(ad, ac)
-            return ("add", a, b), ad, ac, ab + bb
+            return ("add", a, b, r.choice(ADD_CONVS)), ad, ac, ab + bb
         a, ad, ac, ab = self.expr(depth - 1)
         if op == "dagger":
-            return ("dagger", a), ac, ad, ab
+            return ("dagger", a, r.choice(DAGGER_CONVS)), ac, ad, ab
         if op == "transpose":
-            return ("transpose", a), list(reversed(ac)), list(reversed(ad)), ab
+            return ("transpose", a, r.choice(TRANSPOSE_CONVS)), \
+                list(reversed(ac)), list(reversed(ad)), ab
         return ("conj", a), ad, ac, ab
 
 
@@ -309,7 +329,39 @@ def tok_texpr(e):
         return "spider %d %d %s" % (e[1], e[2], tok_nats(e[3]))
     if op in ("then", "tensor", "add"):
         return "%s %s %s" % (op, tok_texpr(e[1]), tok_texpr(e[2]))
+    if op in ("thenN", "tensorN"):
+        return " ".join([op, tok_texpr(e[1]), str(len(e[2]))] + [tok_texpr(x) for x in e[2]])
+    if op == "sum":
+        _, kind, typed, dom, cod, terms = e
+        return " ".join(["sum", kind, "1" if typed else "0", tok_nats(dom), tok_nats(cod),
+                         str(len(terms))] + [tok_texpr(x) for x in terms])
+    if op == "box":
+        return "box %s %s" % (tok_nats(e[1]), tok_nats(e[2]))
+    if op in ("none", "int"):
+        return op
+    if op == "map":
+        return "map %s %s" % (e[1], tok_texpr(e[2]))
     return "%s %s" % (op, tok_texpr(e[1]))
+
+
+def canon_val(v):
+    """Canonical answer line for what an operation returned: a Tensor, or a Sum of Tensors
+    (with its class: `t` = discopy.tensor.Sum, `m` = discopy.monoidal.Sum)."""
+    from discopy import cat, monoidal, tensor
+    if isinstance(v, cat.Sum):
+        kind = "t" if type(v) is tensor.Sum else "m" if type(v) is monoidal.Sum \
+            else "?" + type(v).__name__
+        terms = []
+        for t in v.terms:
+            if not isinstance(t, tensor.Tensor):
+                return "ok sum-with-term-of-type-" + type(t).__name__
+            terms.append("%s %s %s" % (tok_nats(dims_of(t.dom)), tok_nats(dims_of(t.cod)),
+                                       tok_arr(t.array)))
+        return " ".join(["ok sum", kind, tok_nats(dims_of(v.dom)), tok_nats(dims_of(v.cod)),
+                         str(len(terms))] + terms)
+    if isinstance(v, tensor.Tensor):
+        return canon_tensor(v)
+    return "ok value-of-type-" + type(v).__name__
 
 
 def run_texpr(e):
@@ -318,7 +370,11 @@ def run_texpr(e):
     op = e[0]
     if op == "T":
         return Tensor(Dim(*e[1]), Dim(*e[2]), list(e[3]))
+    conv = e[-1] if isinstance(e[-1], str) else None
     if op == "id":
+        if conv == "default":           # `Tensor.id()`: the default argument Dim(1)
+            assert not eff(e[1])
+            return Tensor.id()
         return Tensor.id(Dim(*e[1]))
     if op == "swap":
         return Tensor.swap(Dim(*e[1]), Dim(*e[2]))
@@ -332,17 +388,74 @@ def run_texpr(e):
         s = Spider(e[1], e[2], Dim(*e[3]))
         return Tensor(s.dom, s.cod, s.array)
     if op == "then":
-        return run_texpr(e[1]) >> run_texpr(e[2])
+        a, b = run_texpr(e[1]), run_texpr(e[2])
+        conv = e[3] if len(e) > 3 else ">>"
+        if conv == ">>":
+            return a >> b
+        if conv == "<<":
+            return b << a
+        if conv == "method":
+            return a.then(b)
+        if conv == "unbound":
+            return type(a).then(a, b)
+        raise ValueError(conv)
     if op == "tensor":
-        return run_texpr(e[1]) @ run_texpr(e[2])
+        a, b = run_texpr(e[1]), run_texpr(e[2])
+        conv = e[3] if len(e) > 3 else "@"
+        if conv == "@":
+            return a @ b
+        if conv == "method":
+            return a.tensor(b)
+        if conv == "unbound":
+            return type(a).tensor(a, b)
+        raise ValueError(conv)
     if op == "add":
-        return run_texpr(e[1]) + run_texpr(e[2])
+        a, b = run_texpr(e[1]), run_texpr(e[2])
+        conv = e[3] if len(e) > 3 else "+"
+        if conv == "+":
+            return a + b
+        if conv == "sum":               # the builtin: 0 + a + b through __radd__
+            return sum([a, b])
+        if conv == "0+":
+            return 0 + a + b
+        raise ValueError(conv)
     if op == "dagger":
-        return run_texpr(e[1]).dagger()
+        a = run_texpr(e[1])
+        return a[::-1] if len(e) > 2 and e[2] == "slice" else a.dagger()
     if op == "transpose":
-        return run_texpr(e[1]).transpose()
+        a = run_texpr(e[1])
+        conv = e[2] if len(e) > 2 else "()"
+        if conv == "left=True":
+            return a.transpose(left=True)
+        if conv == "left=False":
+            return a.transpose(left=False)
+        if conv == "pos":
+            return a.transpose(True)
+        return a.transpose()
     if op == "conj":
         return run_texpr(e[1]).conjugate()
+    if op in ("thenN", "tensorN"):
+        recv = run_texpr(e[1])
+        args = [run_texpr(x) for x in e[2]]
+        name = "then" if op == "thenN" else "tensor"
+        if e[3] == "unbound":
+            return getattr(type(recv), name)(recv, *args)
+        return getattr(recv, name)(*args)
+    if op == "sum":
+        from discopy import monoidal, tensor
+        _, kind, typed, dom, cod, terms = e
+        cls = tensor.Sum if kind == "t" else monoidal.Sum
+        terms = [run_texpr(x) for x in terms]
+        return cls(terms, Dim(*dom), Dim(*cod)) if typed else cls(terms)
+    if op == "box":
+        from discopy import tensor
+        return tensor.Box("b", Dim(*e[1]), Dim(*e[2]), [1] * (size(e[1]) * size(e[2])))
+    if op == "none":
+        return None
+    if op == "int":
+        return 3
+    if op == "map":
+        return run_texpr(e[2]).map(MAP_FNS[e[1]])
     raise ValueError(op)
 
 
@@ -386,6 +499,32 @@ def texpr_cost(e):
             return l + r, [], 1, 1
         work, peak = cups_cost(l), size(l) ** 4
         return (l + r, [], work, peak) if op == "cups" else ([], l + r, work, peak)
+    if op in ("box", "none", "int"):
+        return (eff(e[1]), eff(e[2]), 1, 1) if op == "box" else ([], [], 1, 1)
+    if op == "sum":
+        dom, cod, terms = eff(e[3]), eff(e[4]), e[5]
+        costs = [texpr_cost(x) for x in terms]
+        if not e[2] and costs:
+            dom, cod = costs[0][0], costs[0][1]
+        return dom, cod, sum(c[2] for c in costs) + 1, max([c[3] for c in costs] + [1])
+    if op == "map":
+        ad, ac, aw, ap = texpr_cost(e[2])
+        return ad, ac, aw + size(ad) * size(ac), ap
+    if op in ("thenN", "tensorN"):
+        # the fold of the binary operation; a Sum operand multiplies the number of products
+        d, c, w, p = texpr_cost(e[1])
+        mult = max(1, nterms(e[1]))
+        for x in e[2]:
+            bd, bc, bw, bp = texpr_cost(x)
+            mult *= max(1, nterms(x))
+            if op == "thenN":
+                step = size(d) * size(c) * size(bc) if c == bd else 1
+                d, c, out = d, bc, size(d) * size(bc)
+            else:
+                out = size(d) * size(c) * size(bd) * size(bc)
+                d, c, step = d + bd, c + bc, 2 * out
+            w, p = w + bw + mult * step, max(p, bp, out)
+        return d, c, w, p
     if op in ("then", "tensor", "add"):
         ad, ac, aw, ap = texpr_cost(e[1])
         bd, bc, bw, bp = texpr_cost(e[2])
@@ -404,6 +543,11 @@ def texpr_cost(e):
     if op == "transpose":
         return list(reversed(ac)), list(reversed(ad)), aw + n, ap
     return ad, ac, aw + n, ap
+
+
+def nterms(e):
+    """Number of terms when the expression is a Sum literal (1 otherwise)."""
+    return len(e[5]) if e[0] == "sum" else 1
 
 
 def bounded_texpr(gen, depth, work=400000, peak=20000, tries=30):
@@ -430,6 +574,10 @@ def texpr_ops(e, acc=None):
     for x in e[1:]:
         if isinstance(x, tuple):
             texpr_ops(x, acc)
+        elif isinstance(x, list) and e[0] in ("thenN", "tensorN", "sum"):
+            for y in x:
+                if isinstance(y, tuple):
+                    texpr_ops(y, acc)
     return acc
 
 
